@@ -16,6 +16,7 @@
 (* var in {"base","periodic"} names the class: the two classes enumerate the   *)
 (* boundary in opposite orders (both alternate).                               *)
 EXTENDS Persistence
+LOCAL INSTANCE SequencesExt
 
 INF == 1000000          \* +infinity of the filtration values (vf::INF_CODE)
 
@@ -128,10 +129,8 @@ Before(T, val, a, b) ==
   \/ val[a] < val[b]
   \/ val[a] = val[b] /\ (T.dim[a] < T.dim[b] \/ (T.dim[a] = T.dim[b] /\ a < b))
 OrderOf(T, val) == SortSeq([k \in 1..T.N |-> k - 1], LAMBDA a, b : Before(T, val, a, b))
-PositionsOf(T, ord) ==     \* inverse permutation, by one pass per cell
-  LET RECURSIVE Fill(_, _)
-      Fill(k, acc) == IF k > T.N THEN acc ELSE Fill(k + 1, [acc EXCEPT ![ord[k]] = k])
-  IN  Fill(1, Tab([c \in 0..(T.N - 1) |-> 0]))
+PositionsOf(T, ord) ==     \* inverse permutation, by one pass
+  FoldLeft(LAMBDA acc, k : [acc EXCEPT ![ord[k]] = k], Tab([c \in 0..(T.N - 1) |-> 0]), [k \in 1..T.N |-> k])
 
 (* the filtered cell complex in the sense of Persistence.tla over Z_p, boundary chain of *)
 (* a cell = its enumerated boundary with alternating signs                                *)
@@ -142,6 +141,19 @@ SignedChain(seq, pos, p) ==      \* seq: sequence of faces; coefficient of a fac
              coef(CHOOSE f \in S : pos[f] = q)])
 FilteredOf(T, bdseq, ord, pos, p) ==
   Tab([k \in 1..T.N |-> [dim |-> T.dim[ord[k]], bd |-> SignedChain(bdseq[ord[k]], pos, p)]])
+
+(* The column reduction of Persistence.tla (ReduceColumn, the pairing read off the pivots by  *)
+(* BarsOf), driven by an iterative fold instead of the recursion of ReduceFrom: TLC evaluates   *)
+(* operator arguments lazily, and ReduceFrom on a few hundred cells builds a chain of suspended *)
+(* evaluations as deep as the complex.  Same steps, same result (theorem ThReduction).          *)
+StrictReduced(F, p) ==
+  FoldLeft(LAMBDA st, i :
+             LET col == ReduceColumn(F[i].bd, st.R, st.piv, p) IN
+             [R |-> (i :> col) @@ st.R,
+              piv |-> IF IsZero(col) THEN st.piv ELSE (Max(DOMAIN col) :> i) @@ st.piv],
+           [R |-> <<>>, piv |-> <<>>], [i \in 1..Len(F) |-> i])
+StrictBars(F, p) == BarsOf(F, StrictReduced(F, p))
+RedCheckMax == 36        \* complexes up to this size: StrictReduced = AlgReduced is checked in the model
 
 (* diagram in values as Persistent_cohomology reports it with min_interval_length = 0:   *)
 (* a finite pair is kept iff death value > birth value (+infinity is not > +infinity),    *)
@@ -164,7 +176,7 @@ Complex(sh, var, conv, vals, primes) ==
       bdseq == Tab([c \in 0..(T.N - 1) |-> BdSeq(T, var, c)])
       pers  == Tab([p \in primes |->
                   LET F == FilteredOf(T, bdseq, ord, pos, p)
-                      bars == Bars(F, p)
+                      bars == StrictBars(F, p)
                   IN  [F |-> F, bars |-> bars, diag |-> CubDiagram(bars, ord, val), betti |-> BettiOf(bars, T.D)]])
   IN  [T |-> T, val |-> val, ord |-> ord, pos |-> pos, bdseq |-> bdseq, pers |-> pers]
 
@@ -245,6 +257,8 @@ ThPersistence(sh, X, primes) ==   \* a valid filtered chain complex; every cell 
   IN
   \A p \in primes :
     /\ WellFormed(X.pers[p].F, p)
+    /\ T.N <= RedCheckMax =>      \* the iterative driver computes the reduction of Persistence.tla
+         LET a == AlgReduced(X.pers[p].F, p)  s == StrictReduced(X.pers[p].F, p) IN a.R = s.R /\ a.piv = s.piv
     /\ \A i \in 1..T.N : Cardinality({b \in X.pers[p].bars : b.birth = i \/ b.death = i}) = 1
     /\ \A k \in 0..T.D : X.pers[p].betti[k + 1] = Binom(nper, k)
 =============================================================================
